@@ -2428,6 +2428,209 @@ theorem obj_reload_strict [DecidableEq α] {ls : List (Line τ α)} {gs : List (
 
 end matmono
 
+/-! ### load → save: corner positions of the saved text -/
+
+section resavepos
+variable {τ α : Type} [DecidableEq τ] (pc : τ → Except Err Corner)
+
+/-- the position every face corner of a text refers to, corner by corner in file order, resolved against
+    the text's `v` lines (`none` = unresolvable) -/
+def cornerPositions {τ : Type} (pc : τ → Except Err Corner) (ls : List (Line τ α)) : List (Option (V3 α)) :=
+  (flatC (faceToks ls)).map (vOf pc (poolV ls))
+
+theorem faceToks_append_aux {τ : Type} : ∀ (a b : List (Line τ α)), faceToks (a ++ b) = faceToks a ++ faceToks b
+  | [], _ => rfl
+  | l :: a, b => by
+    have := faceToks_append_aux a b
+    cases l <;> simp [faceToks, this]
+
+theorem flatC_append_aux {γ : Type} : ∀ (a b : List (γ × γ × γ)), flatC (a ++ b) = flatC a ++ flatC b
+  | [], _ => rfl
+  | (x, y, z) :: a, b => by simp [flatC, flatC_append_aux a b]
+
+theorem faceToks_faceLines_aux (mk : Nat → Corner) : ∀ ts : List (Nat × Nat × Nat),
+    faceToks (faceLines (α := α) mk ts) = cornerTriples mk ts
+  | [] => rfl
+  | t :: ts => by
+    have := faceToks_faceLines_aux mk ts
+    simp only [faceLines, cornerTriples] at this
+    simp [faceLines, cornerTriples, faceToks, this]
+
+theorem faceToks_rangeLines_aux (mk : Nat → Corner) : ∀ (mats : List (Option String × Nat)) (ts : List (Nat × Nat × Nat)),
+    (mats.map (·.2)).sum = ts.length → faceToks (rangeLines (α := α) mk mats ts) = cornerTriples mk ts
+  | [], ts, h => by
+    have : ts = [] := List.eq_nil_of_length_eq_zero (by simpa using h.symm)
+    subst this; rfl
+  | (m, n) :: ms, ts, h => by
+    simp only [List.map_cons, List.sum_cons] at h
+    have ih := faceToks_rangeLines_aux mk ms (ts.drop n) (by simp [List.length_drop]; omega)
+    simp only [rangeLines, faceToks, faceToks_append_aux, faceToks_faceLines_aux, ih, cornerTriples, ← List.map_append,
+      List.take_append_drop]
+
+theorem triplesOf_flatTris_aux : ∀ ts : List (Nat × Nat × Nat), triplesOf (flatTris ts) = ts
+  | [] => rfl
+  | (a, b, c) :: ts => by simp [flatTris, triplesOf, triplesOf_flatTris_aux ts]
+
+/-- `writeGroup` on a mesh with whole triangles and partitioning ranges (positions not required) -/
+theorem writeGroup_eq2_aux (multi : Bool) (vo to no : Nat) (name : String) (m : Mesh α)
+    (h3 : m.idx.length % 3 = 0) (hmats : m.mats = [] ∨ (m.mats.map (·.2)).sum = m.idx.length / 3) :
+    writeGroup multi vo to no name m = .ok (gLine multi name ++ bodyLines vo to no m) := by
+  have hidx := flat_triplesOf_aux m.idx h3
+  have hlen := triplesOf_length_aux m.idx
+  unfold writeGroup bodyLines gLine
+  by_cases hm : m.mats = []
+  · have h1 := faceRun_flat_aux (α := α) (mkCorner m.uv.isSome m.nrm.isSome vo to no) (triplesOf m.idx) []
+    rw [List.append_nil, hidx, hlen] at h1
+    have h2 : (m.idx.length + 2) / 3 = m.idx.length / 3 := by omega
+    simp only [hm, ↓reduceIte, h2, h1, Except.map]
+  · have hs : (m.mats.map (·.2)).sum = (triplesOf m.idx).length := by
+      rcases hmats with h' | h'
+      · exact absurd h' hm
+      · rw [hlen]; exact h'
+    have h1 := rangeRun_eq_aux (α := α) (mkCorner m.uv.isSome m.nrm.isSome vo to no) m.mats (triplesOf m.idx) hs
+    rw [hidx] at h1
+    simp only [hm, ↓reduceIte, h1]
+
+theorem writeGroups_eq2_aux (multi : Bool) : ∀ (ms : List (String × Mesh α)) (vo to no : Nat),
+    (∀ p ∈ ms, p.2.idx.length % 3 = 0 ∧ (p.2.mats = [] ∨ (p.2.mats.map (·.2)).sum = p.2.idx.length / 3)) →
+    writeGroups multi vo to no ms = .ok (groupLines multi vo to no ms)
+  | [], _, _, _, _ => rfl
+  | (name, m) :: rest, vo, to, no, h => by
+    obtain ⟨h3, hm⟩ := h (name, m) (by simp)
+    simp only [writeGroups, writeGroup_eq2_aux multi vo to no name m h3 hm,
+      writeGroups_eq2_aux multi rest _ _ _ (fun p hp => h p (by simp [hp])), groupLines]
+
+theorem faceToks_nopool_aux : ∀ (ms : List (String × Mesh α)), faceToks (dataLines ms) = []
+  | [] => rfl
+  | (_, m) :: rest => by
+    have hv : ∀ l : List (V3 α), faceToks (l.map (Line.v (τ := Corner))) = [] := by
+      intro l; induction l with
+      | nil => rfl
+      | cons a l ih => simp [faceToks, ih]
+    have hn : ∀ l : List (V3 α), faceToks (l.map (Line.vn (τ := Corner))) = [] := by
+      intro l; induction l with
+      | nil => rfl
+      | cons a l ih => simp [faceToks, ih]
+    have ht : ∀ l : List (V2 α), faceToks (l.map (Line.vt (τ := Corner))) = [] := by
+      intro l; induction l with
+      | nil => rfl
+      | cons a l ih => simp [faceToks, ih]
+    simp [dataLines, meshData, faceToks_append_aux, hv, hn, ht, faceToks_nopool_aux rest]
+
+/-- the saved group lines, corner by corner, against pools that hold the groups' vertex tables at the
+    running offsets: the positions of the tokens of the groups' face lines -/
+theorem saved_positions_aux (multi : Bool) (PV PN : List (V3 α)) (PT : List (V2 α)) (pv pn : List (V3 α)) (pt : List (V2 α)) :
+    ∀ (gs : List (Group τ α)) (vo to no : Nat),
+    PoolsAll PV PN PT vo to no (gs.map toMesh) → (∀ g ∈ gs, GInv pc pv pn pt g) →
+    (∀ g ∈ gs, g.mats = [] ∨ matSum g.mats = g.tris.length) →
+    (flatC (faceToks (groupLines multi vo to no (gs.map toMesh)))).map (vOf pcId PV) =
+      (flatC (gs.flatMap (·.ftoks))).map (vOf pc pv)
+  | [], _, _, _, _, _, _ => rfl
+  | g :: gs, vo, to, no, hp, hi, hm => by
+    have ih := saved_positions_aux multi PV PN PT pv pn pt gs (vo + optLen (toMesh g).2.pos)
+      (to + optLen (toMesh g).2.uv) (no + optLen (toMesh g).2.nrm) hp.2 (fun g' hg' => hi g' (by simp [hg']))
+      (fun g' hg' => hm g' (by simp [hg']))
+    have hg := hi g (by simp)
+    have hr := tris_in_range_aux pc hg
+    -- face tokens of this group's lines
+    have hbody : faceToks (bodyLines (α := α) vo to no (toMesh g).2) =
+        cornerTriples (mkCorner (toMesh g).2.uv.isSome (toMesh g).2.nrm.isSome vo to no) g.tris := by
+      unfold bodyLines
+      have ht : triplesOf (toMesh g).2.idx = g.tris := by simp [toMesh, triplesOf_flatTris_aux]
+      by_cases hmm : (toMesh g).2.mats = []
+      · simp only [hmm, ↓reduceIte, faceToks_faceLines_aux, ht]
+      · simp only [hmm, ↓reduceIte, ht]
+        apply faceToks_rangeLines_aux
+        rcases hm g (by simp) with h0 | h0
+        · exact absurd (by simp [toMesh, h0]) hmm
+        · simpa [toMesh, matSum, List.map_map, Function.comp_def] using h0
+    have hgl : faceToks (gLine (α := α) multi (toMesh g).1) = [] := by unfold gLine; split <;> rfl
+    have e : toMesh g = ((toMesh g).1, (toMesh g).2) := rfl
+    rw [List.map_cons, e]
+    simp only [groupLines, faceToks_append_aux, hgl, List.nil_append, hbody, flatC_append_aux, List.map_append,
+      List.flatMap_cons]
+    rw [ih]
+    congr 1
+    -- this group's corners
+    rw [flatC_cornerTriples_aux, List.map_map, ← flat_lookup_aux hg.hv g.tris g.ftoks hg.hf]
+    apply List.map_congr_left
+    intro p hp'
+    have hlt := hr p hp'
+    have hpos : (toMesh g).2.pos = some g.verts := by
+      have : g.verts ≠ [] := by intro e'; rw [e'] at hlt; simp at hlt
+      simp [toMesh, optOfList, this]
+    have := hp.1.1 g.verts hpos p hlt
+    have e1 : p + 1 + vo - 1 = p + vo := by omega
+    simp [vOf, mkCorner, e1, this]
+
+/-- **Load → save keeps every corner where it was.**  For every accepted input, saving what was read
+    succeeds, and the saved text has — face by face and corner by corner, in order — exactly the corner
+    positions of the input (each face corner resolved against its own text's `v` lines), all of them
+    resolvable.  (Texture coordinates / normals of the saved text: oracle `c05.holds.resave` only.) -/
+theorem obj_resave_positions {ls : List (Line τ α)} {gs : List (Group τ α)} {libs : List String}
+    (h : readObj pc ls = .ok (gs, libs)) (matFile : String) :
+    ∃ out, writeObj matFile (gs.map toMesh) = .ok out ∧
+      cornerPositions pcId out = cornerPositions pc ls ∧ ∀ o ∈ cornerPositions pc ls, o.isSome := by
+  have hinv := readObj_corners pc h
+  obtain ⟨hok, _⟩ := readObj_ranges_sum pc h
+  have hcont := readObj_faces_content pc h
+  have hw := writeGroups_eq2_aux (decide ((gs.map toMesh).length > 1)) (gs.map toMesh) 0 0 0 (by
+    intro p hp
+    obtain ⟨g, hg, rfl⟩ := List.mem_map.1 hp
+    refine ⟨by simp [toMesh, flatTris_length_aux], ?_⟩
+    rcases (hok g hg).2 with h0 | h0
+    · left; simp [toMesh, h0]
+    · right
+      have : 3 * g.tris.length / 3 = g.tris.length := by omega
+      simp only [toMesh, flatTris_length_aux, this, ← h0]
+      simp [matSum, List.map_map, Function.comp_def])
+  refine ⟨headerLines matFile ++ dataLines (gs.map toMesh) ++
+    groupLines (decide ((gs.map toMesh).length > 1)) 0 0 0 (gs.map toMesh), by simp only [writeObj, hw], ?_, ?_⟩
+  · -- pools and face tokens of the saved text
+    obtain ⟨a1, _, _⟩ := pool_of_append_aux (headerLines matFile ++ dataLines (gs.map toMesh))
+      (groupLines (decide ((gs.map toMesh).length > 1)) 0 0 0 (gs.map toMesh))
+    obtain ⟨b1, _, _⟩ := pool_of_append_aux (headerLines (α := α) matFile) (dataLines (gs.map toMesh))
+    have hpv : poolV (headerLines matFile ++ dataLines (gs.map toMesh) ++
+        groupLines (decide ((gs.map toMesh).length > 1)) 0 0 0 (gs.map toMesh)) =
+        (gs.map toMesh).flatMap (fun p => optList p.2.pos) := by
+      rw [a1, b1, (noPool_groupLines_aux _ _ 0 0 0).1, (pool_header_aux (α := α) matFile).1, (pool_data_aux _).1]; simp
+    have hft : faceToks (headerLines matFile ++ dataLines (gs.map toMesh) ++
+        groupLines (decide ((gs.map toMesh).length > 1)) 0 0 0 (gs.map toMesh)) =
+        faceToks (groupLines (decide ((gs.map toMesh).length > 1)) 0 0 0 (gs.map toMesh)) := by
+      have hh : faceToks (headerLines (α := α) matFile) = [] := by unfold headerLines; split <;> rfl
+      simp [faceToks_append_aux, hh, faceToks_nopool_aux]
+    have hpools := poolsAll_aux (gs.map toMesh) [] [] []
+    simp only [List.nil_append, List.length_nil] at hpools
+    unfold cornerPositions
+    rw [hpv, hft, saved_positions_aux pc _ _ _ _ _ _ _ gs 0 0 0 hpools hinv (fun g hg => (hok g hg).2), hcont]
+  · -- every corner of the input resolves
+    intro o ho
+    unfold cornerPositions at ho
+    rw [← hcont] at ho
+    obtain ⟨t, ht, rfl⟩ := List.mem_map.1 ho
+    -- t is a token of some group's face, hence in that group's table, hence resolved
+    have key : ∀ (gs' : List (Group τ α)), (∀ g ∈ gs', GInv pc (poolV ls) (poolN ls) (poolT ls) g) →
+        t ∈ flatC (gs'.flatMap (·.ftoks)) → (vOf pc (poolV ls) t).isSome := by
+      intro gs'
+      induction gs' with
+      | nil => intro _ h'; cases h'
+      | cons g r ih =>
+        intro hall hmem
+        rw [List.flatMap_cons, flatC_append_aux] at hmem
+        rcases List.mem_append.1 hmem with hmem | hmem
+        · have hg := hall g (by simp)
+          -- corner t of a face of g: g.verts at its index is some
+          have := flat_lookup_aux hg.hv g.tris g.ftoks hg.hf
+          have hmem' : vOf pc (poolV ls) t ∈ (flatC g.ftoks).map (vOf pc (poolV ls)) := List.mem_map_of_mem hmem
+          rw [← this] at hmem'
+          obtain ⟨i, hi, e⟩ := List.mem_map.1 hmem'
+          have hlt := tris_in_range_aux pc hg i hi
+          rw [← e, List.getElem?_eq_getElem hlt]; rfl
+        · exact ih (fun g' hg' => hall g' (by simp [hg'])) hmem
+    exact key gs hinv ht
+
+end resavepos
+
 /-! ### concrete instances of the hypotheses (non-vacuity) -/
 
 section instances
